@@ -8,6 +8,7 @@ import (
 )
 
 func (rt *runtime) cmplEvaluateNodeStatement(node nodeStatement) Value {
+	verifStep(rt)
 	// Allow interpreter interruption
 	// If the Interrupt channel is nil, then
 	// we avoid runtime.Gosched() overhead (if any)
@@ -266,6 +267,9 @@ resultBreak:
 		}
 
 		// this is to prevent for cycles with no body from running forever
+		if len(body) == 0 {
+			verifStep(rt)
+		}
 		if len(body) == 0 && rt.otto.Interrupt != nil {
 			goruntime.Gosched()
 			select {
